@@ -12,6 +12,7 @@ from lazy_object_proxy import Proxy
 
 from spec_classes.errors import FrozenInstanceError
 from spec_classes.types import EMPTY, MISSING, UNCHANGED, Attr
+from spec_classes.types.validated import ValidatedType
 
 from .type_checking import check_type, type_label
 
@@ -289,6 +290,9 @@ def mutate_value(
         and expected_type
         and isinstance(value, dict)
         and not check_type({}, expected_type)
+        and not (  # validated types are annotations only (never instantiated)
+            isinstance(constructor, type) and issubclass(constructor, ValidatedType)
+        )
     ):
         value = constructor(
             **{
